@@ -133,3 +133,7 @@ def run(job):
                      "IncompatibleUnitsError")
         except IncompatibleUnitsError:
             job.case("sum/other-type", kind, True)
+
+    # pairs of units whose concatenated symbols coincide (C04 stand-in)
+    from .standins_c04 import symbol_collisions
+    symbol_collisions(job)
